@@ -41,7 +41,7 @@ def gen_cases(rng, tier):
     n = 900 if tier == "quick" else 12000
     for _ in range(n):
         kind = rng.choice(["rate", "slide", "breaker"])
-        period = 16 * rng.choice([1, 2, 3])
+        period = rng.choice([16, 32, 48, 24, 40])      # 1, 2, 3 s and 1.5, 2.5 s (a timedelta spelling then has a sub-second part)
         ttl = rng.choice([0, 0, 16, 32, 48, 64, period])
         c = {"kind": kind, "limit": rng.randint(1, 4), "period": period, "ttl": ttl, "action": rng.random() < 0.3,
              "rate": rng.choice([34, 50, 67]), "min_calls": rng.randint(1, 3),
